@@ -158,6 +158,24 @@ def evaluate(case):
         first = solve_for.index(name)
         c.check(named.shape == (6, N) and np.array_equal(named, res[6 * first: 6 * first + 6], equal_nan=True),
                 {'clause': 'getitem', 'type': name}, 'sol[%r] differs from rows %d..%d of result' % (name, 6 * first, 6 * first + 5))
+        # ---- each requested type independently -----------------------------------------------------
+        # "for each requested solution type independently": the rows of a type solved together with others are the rows of
+        # that type solved alone (fresh arrays; observed bit-identical, tolerance 1e-12 of the row scale).  This is also the only
+        # view of the surface condition of a static-liquid top layer, where y7 is not returned.
+        if ntypes > 1 and ti > 0 and solve_for.index(name) == ti:
+            with repo_call('radial_solver[alone]'):
+                sol_a, _ = rc.solve(spec, solve_for=(name,))
+            if sol_a.success:
+                c.label('alone_vs_together')
+                ya = np.array(sol_a.result)
+                for row in range(6):
+                    m = np.isfinite(ya[row])
+                    same_nan = np.array_equal(np.isfinite(y[row]), m)
+                    sc = float(np.max(np.abs(ya[row][m]))) if np.any(m) else 0.0
+                    d = float(np.max(np.abs(y[row][m] - ya[row][m]))) if np.any(m) else 0.0
+                    c.check(same_nan and d <= 1e-12 * sc, {'clause': 'independent', 'type': name, 'surface': rc.kind_name(ks[-1])},
+                            'type %s at position %d of %r: row y%d differs from the same type solved alone by %.3e (scale %.3e)'
+                            % (name, ti, solve_for, row + 1, d, sc))
         # ---- surface ------------------------------------------------------------------------------
         top = ks[-1]
         s0 = starts[-1]
